@@ -143,8 +143,8 @@ class ModGen:
             if o.slices:
                 opts.append(("slice_sig", 25))
             if depth < o.max_depth:
-                if o.concats and w >= 2:
-                    opts.append(("cat", 22))
+                if o.concats:
+                    opts.append(("cat", 22 if w >= 2 else 4))
                 if o.slices and o.concats:
                     opts.append(("slice_cmp", 12))
             if o.bundles and any(True for b in self.buns):
@@ -161,8 +161,11 @@ class ModGen:
             self.feats.add("slice")
             return ["slice", ["sig", s[0]], self.slice_index(s[1], a, w)]
         if kind == "cat":
-            k = d.int(2, min(3, w))
-            parts = [self.expr(pw, depth + 1, allow_ref, cur) for pw in d.split(w, k)]
+            k = d.int(2, min(3, w)) if w >= 2 else 1
+            if k == 1 or d.bool(8):
+                k = 1
+                self.feats.add("single_part_concat")
+            parts = [self.expr(pw, depth + 1, allow_ref, cur) for pw in (d.split(w, k) if k > 1 else [w])]
             self.feats.add("concat")
             if any(p[0] == "cat" for p in parts):
                 self.feats.add("nested_concat")
@@ -371,6 +374,9 @@ class ModGen:
             m["style"] = d.weighted([("proc", 50), ("class", 30), ("gen", 20)])
             m["connstyle"] = d.choice(["call", "setattr", "connect", "mixed"])
             m["late"] = d.bool(50)
+            if m["style"] == "proc" and d.bool(25):
+                m["bare"] = True  # created from exec'd source: no defining python module, bare exported name
+                self.feats.add("style_exec_bare_name")
             self.feats.add("style_" + m["style"])
         return m
 
